@@ -3,6 +3,7 @@
    generator (Preservation.v), so the statement holds along every chain of generated successors; the descriptor
    facts further below hold for every parent, whatever fields it inherited from earlier moves. *)
 From Walleye Require Import Model.Successor Model.Fen Spec.Abs Proofs.MoveGenProofs Proofs.GenerateAbs Proofs.LegalMoves Proofs.Preservation Gen.ZobristTable.
+From Walleye Require Import Model.TextMove Spec.Chess Proofs.MakeMoveSame Proofs.PositionGo.
 Open Scope Z_scope.
 
 (* the main theorem: every successor the generator produces, in both modes -- ordinary move, promotion,
@@ -62,6 +63,32 @@ Theorem C02_promotion_descriptor : forall zt s c a b x,
   last_move x = Some (a, b) /\ exists k, In k PROMOTION_KINDS /\ pawn_promotion x = Some (mkPiece c k).
 Proof. exact promote_pawn_desc. Qed.
 
+(* ... and at the board a position command leaves behind (built by the text-move applier, not by the generator): every
+   successor generated there is the rules' position after its move, played in the position the command describes *)
+Theorem C02_after_a_position_fen_command : forall zt cmds c7 b0 mvs,
+  nth_error cmds 1 = Some str_fen -> nth_error cmds 7 = Some c7 ->
+  from_fen zt (flat_map (fun c => c ++ [32%N]) (firstn 5 (skipn 2 cmds)) ++ c7) = Ok b0 ->
+  legal_position (abs b0) = true -> moves_part cmds mvs -> legal_chain (abs b0) mvs ->
+  exists b t, play_out_position zt cmds = Ok (b, t) /\
+    forall x, In x (generate_moves zt b AllMoves) -> exists mv, desc x = Some mv /\ abs x = apply (fold_left apply mvs (abs b0)) mv.
+Proof.
+  intros zt cmds c7 b0 mvs N1 N7 F LP MP LC.
+  destruct (position_fen_command zt cmds c7 b0 mvs N1 N7 F LP MP LC) as (b & t & PL & A & PO & _).
+  exists b, t. split; [exact PL|]. intros x Hx. rewrite <- A. exact (generate_moves_abs zt b AllMoves x (proj1 PO) Hx).
+Qed.
+Theorem C02_after_a_position_startpos_command : forall zt cmds c1 mvs,
+  nth_error cmds 1 = Some c1 -> str_eqb c1 str_fen = false ->
+  moves_part cmds mvs -> legal_chain start_position mvs ->
+  exists b t, play_out_position zt cmds = Ok (b, t) /\
+    forall x, In x (generate_moves zt b AllMoves) -> exists mv, desc x = Some mv /\ abs x = apply (fold_left apply mvs start_position) mv.
+Proof.
+  intros zt cmds c1 mvs N1 NF MP LC.
+  destruct (position_startpos_command zt cmds c1 mvs N1 NF MP LC) as (b & t & PL & A & PO & _).
+  exists b, t. split; [exact PL|]. intros x Hx. rewrite <- A. exact (generate_moves_abs zt b AllMoves x (proj1 PO) Hx).
+Qed.
+
+Print Assumptions C02_after_a_position_fen_command.
+Print Assumptions C02_after_a_position_startpos_command.
 Print Assumptions C02_successor_is_rules_position.
 Print Assumptions C02_holds_along_every_chain.
 Print Assumptions C02_ordinary_descriptor.
